@@ -825,6 +825,13 @@ func (join *invertibleTypeJoin) invertJoinDirectionWithIndex(
 	join.childSide.isFirst = join.parentSide.isFirst
 	join.parentSide.isFirst = !join.parentSide.isFirst
 
+	// The parent side is from now on fetched by docID, once per child document: a secondary index
+	// chosen for the parent's own filter can no longer serve it (the index fetcher does not look
+	// at the requested docID).
+	if parentScan := getNode[*scanNode](join.parentSide.plan); parentScan != nil {
+		parentScan.index = immutable.None[client.IndexDescription]()
+	}
+
 	return nil
 }
 
